@@ -160,6 +160,10 @@ class Builder:
             s = build_struct(t['s'])
             dt = jax.tree.leaves(s)[0].dtype
             return diagonal.DiagonalOperator(jnp.asarray(p, dtype=dt), in_structure=s)
+        if k == 'diagq':
+            s = build_struct(t['s'])
+            dt = jax.tree.leaves(s)[0].dtype
+            return diagonal.DiagonalOperator(jnp.asarray([v / p[0] for v in p[1:]], dtype=dt), in_structure=s)
         if k == 'dinv':
             return diagonal.DiagonalInverseOperator(self.build(ch[0]))
         if k == 'bdiagb':
@@ -175,7 +179,10 @@ class Builder:
         if k == 'pack':
             return linear.PackOperator(jnp.asarray([bool(b) for b in p]), build_struct(t['s']))
         if k == 'mvax':
-            return axes.MoveAxisOperator(p[0], p[1], in_structure=build_struct(t['s']))
+            h = len(p) // 2
+            if h == 1:
+                return axes.MoveAxisOperator(p[0], p[1], in_structure=build_struct(t['s']))
+            return axes.MoveAxisOperator(tuple(p[:h]), tuple(p[h:]), in_structure=build_struct(t['s']))
         if k == 'reshape':
             return axes.ReshapeOperator(tuple(p), in_structure=build_struct(t['s']))
         if k == 'ravel':
@@ -266,9 +273,7 @@ class Builder:
             if cls == 'PackOperator':
                 return term('pack', project_struct(op.in_structure()), [int(b) for b in np.asarray(op.mask).ravel()])
             if cls == 'MoveAxisOperator':
-                if len(op.source) == 1 and len(op.destination) == 1:
-                    return term('mvax', project_struct(op.in_structure()), [op.source[0], op.destination[0]])
-                return term('opaque:mvax', project_struct(op.in_structure()))
+                return term('mvax', project_struct(op.in_structure()), list(op.source) + list(op.destination))
             if cls == 'ReshapeOperator':
                 return term('reshape', project_struct(op.in_structure()), list(op.shape))
             if cls == 'RavelOperator':
